@@ -511,8 +511,12 @@ func (h *DijkstraBlockHeader) UnmarshalCBOR(cborData []byte) error {
 	if _, err := cbor.Decode(top[1], &signature); err != nil {
 		return err
 	}
-	h.Body = body
-	h.Signature = signature
+	// Replace the embedded header as a whole so that a hash cached for
+	// previously decoded bytes does not survive
+	h.BabbageBlockHeader = babbage.BabbageBlockHeader{
+		Body:      body,
+		Signature: signature,
+	}
 	h.LeiosHeaderExtension = bodyElems[babbageHeaderBodyFieldCount:]
 	h.SetCbor(cborData)
 	return nil
